@@ -14,7 +14,7 @@ ASAN  := $(COMMON) -O1 -fsanitize=address -fno-omit-frame-pointer -DSIM_BUILD_NA
 TLS   := $(COMMON) -O1 -DRLBOX_EMBEDDER_PROVIDES_TLS_STATIC_VARIABLES -DSIM_BUILD_NAME='"tls"'
 LIBS := -lpthread -ldl
 
-TARGETS := apptoken mem mem.p64 callback callback.tls invoke toctou toctou.asan bulk bulk.asan transition.hooks transition.timing transition.both threads threads.tsan
+TARGETS := apptoken mem mem.p64 callback callback.tls invoke toctou toctou.asan bulk bulk.asan transition.hooks transition.timing transition.both threads threads.tsan threads.tls
 
 all: $(addprefix $(B)/,$(TARGETS))
 
@@ -56,6 +56,8 @@ $(B)/sched.clang.o: sim/sched.cpp sim/sched.hpp | $(B)
 	$(CLANGXX) -std=c++17 -O1 -g -c $< -o $@
 $(B)/threads: worlds/threads.cpp $(B)/sched.o $(HDRS) $(SIMH) | $(B)
 	$(CXX) $(PLAIN) $< $(B)/sched.o -o $@ $(LIBS)
+$(B)/threads.tls: worlds/threads.cpp $(B)/sched.o $(HDRS) $(SIMH) | $(B)
+	$(CXX) $(TLS) $< $(B)/sched.o -o $@ $(LIBS)
 $(B)/threads.tsan: worlds/threads.cpp $(B)/sched.clang.o $(HDRS) $(SIMH) | $(B)
 	$(CLANGXX) $(COMMON) -O1 -fsanitize=thread -DSIM_BUILD_NAME='"tsan"' $< $(B)/sched.clang.o -o $@ $(LIBS)
 
